@@ -67,4 +67,28 @@ def run {σ : Type} (env : Env) : Prog σ → Cfg σ → Except Err (Cfg σ)
     | .error e => .error e
   | .iter n body, c => runN (run env body) (n c.st) c
 
+/-! ### Which forks run the payload step, and when (specification) -/
+
+inductive PayloadFork where
+  | bellatrix | capella | deneb
+  deriving DecidableEq, Repr
+
+def forkOfName : String → Option PayloadFork
+  | "bellatrix" => some .bellatrix
+  | "capella" => some .capella
+  | "deneb" => some .deneb
+  | _ => none
+
+/-- `process_block` of the specification: bellatrix runs `process_execution_payload` only
+`if is_execution_enabled(state, block.body)`; capella removed the condition (and so did every later fork). -/
+def payloadStepRuns (f : PayloadFork) (executionEnabled : Bool) : Bool :=
+  match f with
+  | .bellatrix => executionEnabled
+  | _ => true
+
+/-- the guard the code may put around its call of ProcessExecutionPayload -/
+def expectedPayloadGuards : PayloadFork → List String
+  | .bellatrix => ["IsExecutionEnabled"]
+  | _ => []
+
 end Zrnt.Fault
